@@ -35,7 +35,7 @@ CLAIM = dict(
     "the averaging mode (massGuard, avgModeOf). ORACLE: lower/upper cell, face axis and the faces of a cell are computed from shape arithmetic "
     "(own_tables), not read from the grid, so orientation and adjacency are asserted here independently of C07; the tangential clause is tested "
     "under the theorem's hypothesis (flux constant on ONE axis only, random elsewhere).",
-    note="scipy.sparse assembly and numpy slice += are modelled as accumulation through index arrays (accumN); numpy slicing + ravel('F') of the "
+    note="Round 7: the oracle takes the face numbering from the grid after validating each connectivity row by shape arithmetic, allows 8 ulp on the dyadic stream, and claims failing inputs only for stated clauses; lumped face mass, full_keeps_normal, accepted scalar/int/default voxel-size forms are TIE-BROKEN marks, memory sharing / input modification observations, container aliasing is allowed (fail = operators inconsistent with grid.voxel_size). scipy.sparse assembly and numpy slice += are modelled as accumulation through index arrays (accumN); numpy slicing + ravel('F') of the "
     "index arrays pointwise; harmonic mean compared to 4 ulp (scipy hmean divides); in 1-D the dispatch is observable only as accepted/rejected.",
     technique="Lean 4 proof (finite sums by induction, indicator sums over the numbering bijection, accumulation lemmas) + exhaustive-in-range exact correspondence",
 )
